@@ -5,7 +5,7 @@
 #include "vf_enum.hpp"
 #include "sched/vf_explore.hpp"
 
-#ifdef VF_EXEC_OMP
+#if defined(VF_EXEC_OMP) || defined(VF_EXEC_OMP_TSM)
 #include "algorithms/openmp/tbfopenmpalgorithm.hpp"
 #include "algorithms/openmp/tbfopenmpalgorithmtsm.hpp"
 #endif
@@ -18,10 +18,30 @@ constexpr int KE = 8;
 using SI3 = TbfMortonSpaceIndex<3, TbfSpacialConfiguration<double, 3>, false>;
 using FX3 = Fixture<double, SI3, KE>;
 using SeqAlgo = TbfAlgorithm<double, FX3::Kernel, SI3>;
-#ifdef VF_EXEC_OMP
+#if defined(VF_EXEC_OMP_TSM)
+constexpr bool TSM = true;
+using SeqAlgoT = TbfAlgorithmTsm<double, FX3::Kernel, SI3>;
+using ParAlgo = TbfOpenmpAlgorithmTsm<double, FX3::Kernel, SI3>;
+static const char* ExecName = "TbfOpenmpAlgorithmTsm";
+#elif defined(VF_EXEC_OMP)
+constexpr bool TSM = false;
+using SeqAlgoT = SeqAlgo;
 using ParAlgo = TbfOpenmpAlgorithm<double, FX3::Kernel, SI3>;
 static const char* ExecName = "TbfOpenmpAlgorithm";
 #endif
+
+template <class FX> u64 fullDigest(const FX& fx){ if constexpr (TSM) return hcomb(fx.tsmDigest(true), fx.tsmDigest(false)); else return fx.treeDigest(); }
+template <class FX, class Algo> void execOn(FX& fx, Algo& algo){ if constexpr (TSM) algo.execute(*fx.treeTsm); else algo.execute(*fx.tree); }
+template <class FX> std::vector<std::pair<std::uintptr_t,std::uintptr_t>> bufferRanges(FX& fx){
+    std::vector<std::pair<std::uintptr_t,std::uintptr_t>> ranges;
+    auto add = [&](const unsigned char* p, size_t n){ ranges.push_back({reinterpret_cast<std::uintptr_t>(p), reinterpret_cast<std::uintptr_t>(p) + n}); };
+    auto addTree = [&](auto& t){
+        for(long l = 0 ; l < t.getHeight() ; ++l) for(auto& g : t.getCellGroupsAtLevel(l)){ add(g.getDataPtr(), size_t(g.getDataSize())); add(g.getMultipolePtr(), size_t(g.getMultipoleSize())); add(g.getLocalPtr(), size_t(g.getLocalSize())); }
+        for(auto& g : t.getParticleGroups()){ add(g.getDataPtr(), size_t(g.getDataSize())); add(g.getRhsPtr(), size_t(g.getRhsSize())); }
+    };
+    if constexpr (TSM){ addTree(fx.treeTsm->treeSource); addTree(fx.treeTsm->treeTarget); } else addTree(*fx.tree);
+    return ranges;
+}
 
 struct Job {
     std::string name;
@@ -35,7 +55,32 @@ Spec leavesSpec(const int height, const std::vector<long>& leaves, const long bs
     return makeSpec(3, height, leaves, motif, boxes()[0], bs, ogpp, upper);
 }
 
+std::vector<Job> jobsForSingle(const std::string& tier, const bool traceBuild);
 std::vector<Job> jobsFor(const std::string& tier, const bool traceBuild){
+    std::vector<Job> j = jobsForSingle(tier, traceBuild);
+    if(TSM){
+        // target/source: the listed leaves are the targets; sources sit on a shifted/overlapping set of leaves with another motif
+        for(auto& job : j){
+            const long nLeaves = 1L << (3*(job.spec.height-1));
+            std::vector<Particle> src;
+            size_t i = 0;
+            for(const auto& p : job.spec.parts){
+                Particle q = p;
+                if(i % 3 == 0){ /* identical position on both sides */ }
+                else if(i % 3 == 1){ for(int d = 0 ; d < 3 ; ++d) q.lat[d] = (4L << (job.spec.height-1)) - p.lat[d]; }     // mirrored
+                else { q.lat[0] = (p.lat[0] + 4) % (4L << (job.spec.height-1)); }                                             // neighbouring leaf
+                src.push_back(q); ++i;
+            }
+            (void)nLeaves;
+            job.spec.srcParts = src;
+            // the target/source graphs are larger: in the quick tier the bigger ones are explored with a deviation bound
+            if(tier != "thorough" && job.mode == 0 && (job.name == "h4-4leaves-bs2-upper1" || job.name == "h3-6leaves-bs2" || job.name == "h5-4leaves-bs2" || job.name == "h5-6leaves-bs3")){ job.mode = 2; job.bound = 2; }
+            if(tier != "thorough" && job.mode == 2 && job.name == "h4-11leaves-bs4-two") job.bound = 1;
+        }
+    }
+    return j;
+}
+std::vector<Job> jobsForSingle(const std::string& tier, const bool traceBuild){
     std::vector<Job> j;
     const bool thorough = (tier == "thorough");
     // small driver graphs: siblings cut by group boundaries, 2-3 groups per level
@@ -109,22 +154,24 @@ struct JobRunner {
     std::string jobStr;
 
     void computeSequential(){
-        FX3 fx(job.spec);
+        FX3 fx(job.spec, TSM);
         fx.tag();
         fx.cx.checkArgs = false;
-        fx.run<SeqAlgo>();
-        seqDigest = fx.treeDigest();
+        fx.activate();
+        SeqAlgoT algo(fx.config, job.spec.upperLevel);
+        execOn(fx, algo);
+        seqDigest = fullDigest(fx);
     }
 
     vfs::RunTrace runOnce(const std::vector<int>& prefix, const vfs::Policy policy, Outcome& out, const std::vector<int>& workerOf = {}){
-        FX3 fx(job.spec);
+        FX3 fx(job.spec, TSM);
         fx.tag();
         fx.cx.checkArgs = true;
         vfs::Config cfg;
         cfg.prefix = prefix; cfg.policy = policy; cfg.nbWorkers = job.nbWorkers; cfg.workerOf = workerOf;
         cfg.digests = (job.mode != 1);
         FX3* fxp = &fx;
-        cfg.stateDigest = [fxp](){ return fxp->treeDigest(); };
+        cfg.stateDigest = [fxp](){ return fullDigest(*fxp); };
         ParAlgo* algoPtr = nullptr;
         std::vector<std::string> workerViolations;
         cfg.afterTask = [&](vfs::TaskRecord& t){
@@ -135,33 +182,22 @@ struct JobRunner {
                 workerViolations.push_back("task " + std::to_string(t.id) + " (" + t.label + ") on worker " + std::to_string(t.worker) + " used another worker's kernel object");
             fxp->cx.lastKernelThis = nullptr;
         };
-        if(trace){
-            std::vector<std::pair<std::uintptr_t,std::uintptr_t>> ranges;
-            for(long l = 0 ; l < fx.tree->getHeight() ; ++l) for(auto& g : fx.tree->getCellGroupsAtLevel(l)){
-                const auto ps = g.getDataPtrsAndSizes();
-                for(const auto& p : ps) ranges.push_back({reinterpret_cast<std::uintptr_t>(p.first), reinterpret_cast<std::uintptr_t>(p.first) + p.second});
-            }
-            for(auto& g : fx.tree->getParticleGroups()){
-                const auto ps = g.getDataPtrsAndSizes();
-                for(const auto& p : ps) ranges.push_back({reinterpret_cast<std::uintptr_t>(p.first), reinterpret_cast<std::uintptr_t>(p.first) + p.second});
-            }
-            vfs::setTreeRanges(ranges);
-        }
+        if(trace) vfs::setTreeRanges(bufferRanges(fx));
         vfs::beginRun(cfg);
         {
             auto algo = std::make_unique<ParAlgo>(fx.config, job.spec.upperLevel);
             algoPtr = algo.get();
             fx.activate();
             if(trace) vfs::traceEnable(true);
-            algo->execute(*fx.tree);
+            execOn(fx, *algo);
             if(trace) vfs::traceEnable(false);
             algoPtr = nullptr;
         }
         vfs::RunTrace tr = vfs::endRun();
-        tr.finalDigest = fx.treeDigest();
+        tr.finalDigest = fullDigest(fx);
         // ---- invariants of one complete execution ----
         if(tr.finalDigest != seqDigest){
-            Outcome o2; fx.checkPairs(o2, 1, true, true);
+            Outcome o2; if constexpr (TSM) fx.checkPairsGeneral(o2, fx.extractTsmTargets(), true, 0, 0, true, true); else fx.checkPairs(o2, 1, true, true);
             std::string d = "final tree differs from the sequential executor";
             if(!o2.ok()) d += ": " + o2.violations[0].key + " " + o2.violations[0].detail;
             out.add("schedule:result-differs-from-sequential", d);
@@ -240,11 +276,12 @@ void runJob(const Job& job, const bool traceBuild, Report& rep, Progress& pg){
     {
         Outcome o0; const auto tr0 = jr.runOnce({}, vfs::DeferFifo, o0);
         const int n = int(tr0.tasks.size()), W = std::min(job.nbWorkers, 3);
-        if(n <= 10 && W >= 2){
+        if(n <= 8 && W >= 2){
             std::vector<int> wo(n, 0);
             unsigned long count = 0;
             while(true){
                 Outcome out; jr.runOnce({}, vfs::DeferLifo, out, wo);
+                if(pg.sh) pg.sh->heartbeat += 1;
                 rep.evaluations += 1; rep.traces += 1; ++count;
                 rep.addOutcome(out, caseOf(job, "schedule=defer-all-lifo workers=" + vfs::prefixStr(wo)));
                 int i = 0; while(i < n && ++wo[i] == W){ wo[i] = 0; ++i; }
